@@ -37,6 +37,15 @@ def run(ck, rng, tier):
                 if rng.random() < 0.2 and n - nmiss > 2:
                     ytm[i] = MISSING
                     nmiss += 1
+        if c % 7 == 3:
+            # truths NEXT TO the missing-value code but outside its +-0.1 window (ordinary numbers, all of them count),
+            # with one or two inside the window (missing)
+            kind = "near_code"
+            yt = [MISSING + rng.choice((-1, 1)) * rng.uniform(0.5, 90.0) for _ in range(n)]
+            yp = [y + rng.gauss(0, 3.0) for y in yt]
+            ytm = list(yt)
+            if n > 4:
+                ytm[rng.randrange(n)] = MISSING + rng.choice((0.05, -0.08, 0.0))
         lines.append("reg %s %s" % (vf.fmt_vec(ytm), vf.fmt_vec(yp)))
         meta.append(("reg", ytm, yp, kind))
         ck.count("reg " + kind)
@@ -83,9 +92,10 @@ def run(ck, rng, tier):
     for i, (mt, o) in enumerate(zip(meta, outs)):
         if mt[0] == "reg":
             _, yt, yp, kind = mt
-            ck.case(("reg", len(yt), kind, repr(yt[:3])), sample={"op": "reg", "n": len(yt), "kind": kind, "missing": sum(1 for y in yt if y == MISSING)} if i % 29 == 0 else None)
+            ck.case(("reg", len(yt), kind, repr(yt[:3])), sample={"op": "reg", "n": len(yt), "kind": kind, "missing": sum(1 for y in yt if abs(y - MISSING) < 0.1)} if i % 29 == 0 else None)
             checks.add(i, "reg", "reg_ok %s %s %s %s %s %s %s" % (cv(yt), cv(yp), cf(o["r2"]), cf(o["mse"]), cf(o["rmse"]), cf(o["mae"]), cf(o["bias"])))
-            t = np.array([a for a in yt if a != MISSING]); p = np.array([b for a, b in zip(yt, yp) if a != MISSING])
+            miss = lambda a: abs(a - MISSING) < 0.1
+            t = np.array([a for a in yt if not miss(a)]); p = np.array([b for a, b in zip(yt, yp) if not miss(a)])
             mse = ((p - t) ** 2).mean(); mae = np.abs(p - t).mean(); r2 = 1 - ((p - t) ** 2).sum() / ((t - t.mean()) ** 2).sum()
             bad = None
             rel = lambda a, b: abs(a - b) <= 1e-9 * max(abs(a), abs(b), 1e-300) + 1e-12 * (abs(b) + 1e-300)
@@ -134,6 +144,11 @@ def run(ck, rng, tier):
                     got_rm = o["rmse"][lv][j] if mt[0] == "plsstat" else o["rmse"][j]
                     if abs(got_r2 - r2) > 1e-9 or abs(got_rm - rm) > 1e-9 * max(1, rm):
                         ck.fail(mt[0], "table_entry", "statistic table entry (lv %d, response %d): r2 %r vs %r, rmse %r vs %r" % (lv + 1, j, got_r2, r2, got_rm, rm), {"ytrue": Yt, "ypred": Yp})
+            # a table requested on its own (the other outputs NULL) is the same table
+            for nm in ("r2", "rmse", "bias"):
+                if repr(o[nm]) != repr(o[nm + "_alone"]):
+                    ck.fail(mt[0], "table_depends_on_other_outputs", "the %s table requested alone differs from the one returned together with the others: %s vs %s" % (nm, str(o[nm + "_alone"])[:80], str(o[nm])[:80]), {"ytrue": Yt, "ypred": Yp})
+                    break
     failing, logs, cerr = vf.run_cases_v("c15", IMPORTS, DEFS, checks.items, shard=40)
     if cerr:
         ck.broken("correspondence:coq-eval", cerr)
